@@ -29,7 +29,7 @@ SerialClasses == {"one", "highbit", "twenty"}             \* 1 octet; 2 octets w
 TimeClasses == {"utc", "gen", "cross1950", "cross2050", "far"}    \* window inside 1950-2049, after 2050, across either boundary, years 1 - 9999
 ResShapes == {"one", "many", "ends", "inherit"}
 UriForms == {"dir", "nodir"}                              \* repository URI with / without trailing slash
-Items == 1..3
+Items == 1..4
 \* concrete values of the classes: the replayer builds with exactly these, and the expected DER forms
 \* (time tags, minimal INTEGER) are computed here from X509Time's encoder model
 Window(c) == CASE c = "utc" -> << <<2024, 1, 1, 0, 0, 0>>, <<2025, 12, 31, 23, 59, 59>> >>
@@ -57,7 +57,8 @@ Init == /\ kind \in Kinds /\ serial \in SerialClasses /\ times \in TimeClasses /
         /\ Relevant
 AddItem == /\ Len(items) < 3
            /\ kind \in {"crl", "mft", "roa", "aspa"}
-           /\ \E x \in Items : (\A i \in 1..Len(items) : items[i] # x) /\ items' = Append(items, x)
+           \* any insertion order, duplicates included (an ASPA provider set refuses duplicates at construction: distinct there)
+           /\ \E x \in Items : (kind = "aspa" => \A i \in 1..Len(items) : items[i] # x) /\ items' = Append(items, x)
            /\ UNCHANGED <<kind, serial, times, res, uriform>>
 Next == AddItem
 Spec == Init /\ [][Next]_vars
